@@ -115,10 +115,14 @@ def index_arithmetic(chk, tier):
     for n in sizes:
         for ps in (1, 2, 3, 5, 16, 512):
             rows = [[i % 7, i % 5, i % 7 + 1, i % 5 + 2] for i in range(n)]
-            rt = HilbertRtree(np.asarray(rows, dtype=np.float64), page_size=ps)
-            nr = rt.numba_rtree
-            length = int(nr._bounds_tree.shape[0])
-            impl = [[int(nr._start_index(k)), int(nr._stop_index(k))] for k in range(length)]
+            try:
+                rt = HilbertRtree(np.asarray(rows, dtype=np.float64), page_size=ps)
+                nr = rt.numba_rtree
+                length = int(nr._bounds_tree.shape[0])
+                impl = [[int(nr._start_index(k)), int(nr._stop_index(k))] for k in range(length)]
+            except Exception as e:  # noqa: BLE001
+                chk.violation(f"rtree/raises-{common.err_kind(e)}/index-arithmetic", dict(api="HilbertRtree", n=n, page_size=ps, error=repr(e)[:300]), size=n)
+                return
             model = untok(drive([f"rtidx {length} {ps}"])[0])
             chk.evaluated(length)
             if model != impl:
@@ -142,7 +146,12 @@ def bounds_tree_tie(chk, tier, r):
             rows.append(lo + [x + r.choice((0, 1, 3)) for x in lo])
         if r.random() < 0.3:
             rows[r.randrange(n)] = [NAN] * (2 * d)
-        rt = HilbertRtree(np.asarray(rows, dtype=np.float64).reshape(n, 2 * d), p=r.choice((1, 5, 10)), page_size=ps)
+        try:
+            rt = HilbertRtree(np.asarray(rows, dtype=np.float64).reshape(n, 2 * d), p=r.choice((1, 5, 10)), page_size=ps)
+        except Exception as e:  # noqa: BLE001
+            chk.violation(f"rtree/raises-{common.err_kind(e)}/{'nan-row' if any(x != x for row in rows for x in row) else 'finite'}/bounds-tree",
+                          dict(api="HilbertRtree", d=d, page_size=ps, rows=rows, error=repr(e)[:300]), size=n)
+            continue
         keys = [int(x) for x in rt._keys]
         sb = np.asarray(rt._sorted_bounds)
         if not keys:
